@@ -37,6 +37,7 @@ import (
 	appsTypes "github.com/pokt-network/pocket-core/x/apps/types"
 	authTypes "github.com/pokt-network/pocket-core/x/auth/types"
 	govTypes "github.com/pokt-network/pocket-core/x/gov/types"
+	nodesTypes "github.com/pokt-network/pocket-core/x/nodes/types"
 	abci "github.com/tendermint/tendermint/abci/types"
 	dbm "github.com/tendermint/tm-db"
 
@@ -195,6 +196,7 @@ type actor struct {
 	curTxs [][]byte
 	keys   []string // raw keys seen ("store/keyhex")
 	gpre   string   // upgrade globals before the current call
+	curSenders []sdk.Address
 }
 
 func (a *actor) nextEnt() int64 { a.ent++; return 800000000 + a.ent }
@@ -288,6 +290,31 @@ func (a *actor) act(point string, i int) {
 			code := queryRecover(n, q)
 			a.emit(point, fmt.Sprintf("%s@%d", strings.ReplaceAll(desc, " ", "_"), q.Height), code, before, "ante=- msg=-")
 		case "customquery":
+			if r.Chance(1, 3) {
+				// balance probe at the latest height (0 = default, or the explicit last height): the answer must be
+				// the balance of the last COMMITTED version, also in the middle of a block — a query context that
+				// aliases the working trees answers with (and can write to) the state the block is building
+				all := append(append(append([]chain.Key{}, a.e.w.Accts...), a.e.w.Vals...), a.e.w.Apps...)
+				ad := all[r.Intn(len(all))].Addr
+				if i < len(a.curTxs) && len(a.curSenders) > 0 && r.Bool() {
+					ad = a.curSenders[r.Intn(len(a.curSenders))] // an account the current block is likely to touch
+				}
+				q := abci.RequestQuery{Path: "custom/pos/account_balance", Height: []int64{0, n.App.LastBlockHeight()}[r.Intn(2)]}
+				q.Data, _ = nodesTypes.ModuleCdc.MarshalJSON(nodesTypes.QueryAccountBalanceParams{Address: ad})
+				com, wrk := chainx.CommittedBalance(n, ad), chainx.Balance(n, ad)
+				ans := "?"
+				func() {
+					defer func() { recover() }()
+					res := n.App.Query(q)
+					if res.Code == 0 {
+						ans = strings.Trim(strings.TrimSpace(string(res.Value)), "\"")
+					} else {
+						ans = fmt.Sprintf("code%d", res.Code)
+					}
+				}()
+				a.emit(point, fmt.Sprintf("balance:%s@%d", ad.String()[:8], q.Height), "0", before, fmt.Sprintf("ante=- msg=- ans=%s com=%s wrk=%s", ans, com, wrk))
+				continue
+			}
 			q := abci.RequestQuery{}
 			hs := []int64{0, 1, n.Height}
 			if n.Height > 2 {
@@ -476,6 +503,19 @@ func twin(role, kind string, hseed uint64, histPath string) {
 		b, kindsB = h.Block(bi)
 		descs = h.Blocks[bi].Descs
 		a.curTxs = b.Txs
+		a.curSenders = nil
+		for _, d := range descs {
+			var f, to string
+			var amt int64
+			if _, err := fmt.Sscanf(strings.Replace(d, "->", " ", 1), "send %s %s %d", &f, &to, &amt); err == nil {
+				if ad, e2 := sdk.AddressFromHex(f); e2 == nil {
+					a.curSenders = append(a.curSenders, ad)
+				}
+				if ad, e2 := sdk.AddressFromHex(to); e2 == nil {
+					a.curSenders = append(a.curSenders, ad)
+				}
+			}
+		}
 		var hook chainx.Hook
 		if role == "B" {
 			hook = a.act
